@@ -1,23 +1,64 @@
-"""C06 - every qubit reference resolves to the right physical qubit through aliases."""
-from . import passes
+"""C06 - every qubit reference resolves to the right physical qubit through aliases.
+
+TLC builds every two-link alias chain (whole / single index / slice with start, stop in a small range incl. -1 and
+values beyond the size, step in {-1, 1, 2}, omitted or let-valued bounds) over registers of size 3 and 4 that the
+specification declares valid (RegTab), and the AstEnum machine places gates on the last alias directly, through a
+macro parameter, with a let index and as a named single-qubit alias.  Four consumers of the same reference are
+replayed and validated by TLC against JaqalSem!RegEntry / ArgV (element i of src[start:stop:step] is element
+start + i*step of src, composed along the chain):
+  qubit resolution   - NamedQubit.resolve_qubit() of every argument object (clause refs_follow_decls, registers)
+  alias fill-in      - fill_in_map (no alias reference left, same meaning)
+  used-qubit analysis- get_used_qubit_indices (used_exact_*)
+  the emulator       - run_jaqal_circuit (vector, applied_gates through hook H3)"""
+from . import passes, execprops, core
 
 PROP = 'C06'
 CONFIGS = {
-    'quick': [('aliases', ('H_A', 'M_A', 'T_A', 'O_A', 2, 3), 4000)],
-    'thorough': [('aliases', ('H_A', 'M_A', 'T_A', 'O_A', 3, 3), 60000)],
+    'quick': [('chains', ('H_CHQ', 'M_CH', 'T_CH', 'O_CH', 2, 2, 'NoGates'), 2500), ('aliases', ('H_A', 'M_A', 'T_A', 'O_A', 2, 3), 1500)],
+    'thorough': [('chains', ('H_CH', 'M_CH', 'T_CH', 'O_CH', 3, 2, 'NoGates'), 80000), ('aliases', ('H_A', 'M_A', 'T_A', 'O_A', 3, 3), 40000)],
 }
 OWNED = {'accepted', 'no_alias_refs', 'meaning_mod_sub', 'header_carried', 'macros_kept', 'refs_follow_decls'}
+EXEC_OWNED = {'vector', 'applied_gates', 'used_exact_circuit', 'used_exact_statement', 'exact_repr'}
 
 
 def owned(site):
-    return {'registers', 'denotes'} if site == 'parse' else OWNED
+    return {'registers', 'denotes', 'refs_follow_decls', 'accepted'} if site == 'parse' else OWNED
 
 
 def nontrivial(prog):
-    return True
+    return sum(1 for r in prog['regs'] if r['k'] == 'alias' and r['mode'] != 'whole') >= 2
+
+
+def exec_stage(rep, wd, rng, tier, jobs_holder):
+    # the emulator needs native gate definitions: only programs built over the exact gate set are executed
+    jobs = [dict(j, sites=('run', 'used'), nv=0, nq=3, seed=n) for n, j in enumerate(jobs_holder) if j['prog']['natives']]
+    recs = [c for cs in core.pool_map(execprops.run_exec, jobs, chunksize=50) for c in cs]
+    verdicts, stats = core.validate('Conform_Exec', recs, wd, shard_size=2000)
+    for site in ('run', 'used'):
+        rs = [r for r in recs if r['site'] == site]
+        ids = {r['id'] for r in rs}
+        rep.add_validation(site, rs, {k: v for k, v in verdicts.items() if k in ids},
+                           stats if site == 'run' else {'states': 0, 'transitions': 0}, owned=EXEC_OWNED)
 
 
 def main(tier):
-    return passes.run_property(
-        PROP, tier, CONFIGS, lambda p, rng: [('fill_in_map', [])], owned, nontrivial,
-        'programs over alias chains')
+    holder = []
+
+    def sites(p, rng):
+        holder.append({'id': 'x/%d' % len(holder), 'prog': p})
+        return [('fill_in_map', [])]
+    cfgs = {t: [(n, c[:6], b) for n, c, b in v] for t, v in CONFIGS.items()}
+    # the chain configuration keeps gates inside subcircuit blocks so that the emulator accepts the programs
+    import functools
+    orig = passes.ast_cfg
+    outer = {c[:6]: (c[6] if len(c) > 6 else None) for v in CONFIGS.values() for n, c, b in v}
+    passes.ast_cfg = lambda *a, **k: orig(*a, outer=outer.get(tuple(a[:6])), invariants=() if a[0] in ('H_CH', 'H_CHQ') else ('MeaningDefined', 'EraseAgrees'))
+    try:
+        return passes.run_property(
+            PROP, tier, cfgs, sites, owned, nontrivial,
+            'two-link alias chains (whole / index / slice, literal, omitted and let-valued bounds) over registers of size 3-4 that '
+            'the specification declares valid, gates on the last alias directly / via macro / let index / named qubit; four '
+            'consumers replayed; non-trivial = distinct programs whose chain has two non-trivial links',
+            extra_stage=lambda rep, wd, rng: exec_stage(rep, wd, rng, tier, holder))
+    finally:
+        passes.ast_cfg = orig
